@@ -291,6 +291,7 @@ func RunClaimOldestReady(epicID string, opts GlobalOptions) error {
 	}
 
 	err = withLock(lockPath, syscall.LOCK_EX, func() error {
+		verifPoint("section", "ClaimOldest", epicID, agentID)
 		graph, err := loadGraph(dir)
 		if err != nil {
 			return err
@@ -423,6 +424,7 @@ func applySetUpdates(dir string, opts GlobalOptions, id string, updates map[stri
 	}
 
 	return withLock(lockPath, syscall.LOCK_EX, func() error {
+		verifPoint("section", "ApplySet", id)
 		graph, err := loadGraph(dir)
 		if err != nil {
 			return err
@@ -1152,6 +1154,7 @@ func RunCompact(opts GlobalOptions) error {
 	lockPath := filepath.Join(dir, "lock")
 	eventsPath := getEventsPath(dir)
 	if err := withLock(lockPath, syscall.LOCK_EX, func() error {
+		verifPoint("section", "Compact")
 		events, err := readEvents(eventsPath)
 		if err != nil {
 			return err
